@@ -28,6 +28,14 @@ CHECKS = {
         note=NOTE + " 'static is decided by a negative compile probe on one witness type (lifetimes are invisible to runtime probes).",
         technique="exhaustive enumeration of bound-declaration programs on the real macro; runtime trait-availability truth table vs iff model",
         ref="DESIGN.md §3 C04"),
+    "C05": dict(
+        text="6 concrete dependency type shapes (ident, path, generic instantiation, tuple, array, reference with explicit lifetime) x sync/async x "
+             "?Send with a genuinely non-Send body x owned/borrowed return x every argument word <= 2 (quick) / <= 3 (thorough) over {i64, &str}: the client "
+             "calls the function directly, through the trait on C, through <Impl<C> as Tr> and through <Impl<App> as Tr> with a hand-written `impl Tr for App` "
+             "(the README 'case 1' hop); each must produce exactly one event with the right C as dependency (address), arguments in order and the model's "
+             "result; 9 runtime availability probes (C, Impl<C>, App, Impl<App>, Sync-only app, !Sync app, unrelated type, Impl<Impl<App>>) must match.",
+        note=NOTE, technique="exhaustive enumeration of concrete-dependency programs on the real macro; executed trace + availability probes vs model",
+        ref="DESIGN.md §3 C05"),
     "C06": dict(
         text="Every method word of length <= 2 (quick) / <= 3 (thorough) over 12 method shapes (0-2 arguments incl. same-typed adjacent ones, &str, borrowed "
              "returns from arguments and from self, trait-generic and method-generic parameters, four async shapes) x selector {default, Self, ref, Borrow} x "
